@@ -19,7 +19,16 @@ ASGS = {"assign": "Assign", "increase": "Increase", "decrease": "Decrease"}
 
 # EPSILON / NUMERIC_PRECISION settings (None = variable unset: the defaults 0.0001 / 4)
 CONFIGS_QUICK = [{}, {"EPSILON": "0.000001", "NUMERIC_PRECISION": "2"}, {"EPSILON": "0.5", "NUMERIC_PRECISION": "0"},
-                 {"EPSILON": "0", "NUMERIC_PRECISION": "6"}, {"EPSILON": "1e-9", "NUMERIC_PRECISION": "10"}]
+                 {"EPSILON": "0", "NUMERIC_PRECISION": "6"}, {"EPSILON": "1e-9", "NUMERIC_PRECISION": "10"},
+                 # one variable set, the other left to its default: the two settings are independent
+                 {"NUMERIC_PRECISION": "2"}, {"NUMERIC_PRECISION": "7"}, {"EPSILON": "0.01"}]
+
+
+def stated_config(env):
+    """what the settings MEAN (README / module header): EPSILON is the tolerance (default 0.0001), NUMERIC_PRECISION the
+    number of printed decimals (default 4).  Computed from the environment, never read back from the implementation."""
+    return float(env.get("EPSILON", "0.0001")), int(env.get("NUMERIC_PRECISION", "4"))
+
 CONFIGS_THOROUGH = CONFIGS_QUICK + [{"EPSILON": "0.0001", "NUMERIC_PRECISION": "1"}, {"EPSILON": "0.01", "NUMERIC_PRECISION": "17"},
                                     {"EPSILON": "3", "NUMERIC_PRECISION": "3"}, {"EPSILON": "1e-12", "NUMERIC_PRECISION": "20"}]
 
@@ -318,6 +327,11 @@ def build_inputs(rng, tier, configs_info):
     ncfg = len(configs_info)
     # the exhaustive and random expression cases are spread over the configurations (arithmetic does not depend on
     # them, printing does); tolerance pairs and print stress are generated per configuration
+    if tier == "quick":
+        small = [c for c in exh if c["kind"] != "exhaustive-depth2"]
+        big = [c for c in exh if c["kind"] == "exhaustive-depth2"]
+        exh = small + rng.sample(big, min(len(big), 2500))
+        meta["exhaustive"]["quick_sample_of_depth2"] = min(len(big), 2500)
     for i, c in enumerate(exh):
         c["env"] = configs_info[i % ncfg][0]
     inputs += exh
@@ -328,6 +342,10 @@ def build_inputs(rng, tier, configs_info):
     meta["pairs"] = {}
     for env, eps, digits in configs_info:
         ps, st = gen_pairs(rng, eps, tier)
+        if tier == "quick" and len(ps) > 500:
+            # quick tier: a random half of the pairs per configuration (all kinds stay represented; thorough keeps all)
+            keep = set(rng.sample(range(len(ps)), 500))
+            ps = [c for j, c in enumerate(ps) if j in keep or c["kind"] != "tolerance-pair"]
         pr = gen_print(rng, digits, 25 if tier == "quick" else 150)
         asg = gen_assign(rng, 60 if tier == "quick" else 300)
         mal = gen_malformed(rng)
@@ -335,6 +353,31 @@ def build_inputs(rng, tier, configs_info):
             c["env"] = env
         inputs += ps + pr + asg + mal
         meta["pairs"][json.dumps(env, sort_keys=True)] = st["pairs"]
+    # one tree evaluated on several states in a row: fluents present, then missing (read 0), then present again
+    nseq = 40 if tier == "quick" else 400
+    meta["sequences"] = nseq
+    for k in range(nseq):
+        a, b, c3 = (rng.choice([0.5, 1.0, 2.0, 3.0, 5.0, -4.0, 7.25]) for _ in range(3))
+        shape = rng.randrange(4)
+        fx, fy = ["fl", "x", []], ["fl", "y", []]
+        if shape == 0:
+            e = ["bin", rng.choice(list(OPS)), fx, fy]; x = ["calc", e]; txt = text(e)
+        elif shape == 1:
+            op = rng.choice(["<=", ">=", "<", ">", "="]); r = ["bin", "+", fy, num(tok_of(c3))]
+            x = ["cmp", op, fx, r]; txt = "(%s %s %s)" % (op, text(fx), text(r))
+        elif shape == 2:
+            asg = rng.choice(["increase", "decrease", "assign"]); r = ["bin", "*", fy, num(tok_of(c3))]
+            x = ["asg", asg, "x", [], r]; txt = "(%s %s %s)" % (asg, text(fx), text(r))
+        else:
+            asg = rng.choice(["increase", "decrease"]); r = ["bin", "-", fx, num(tok_of(c3))]
+            x = ["asg", asg, "x", [], r]; txt = "(%s %s %s)" % (asg, text(fx), text(r))
+        states = [{("x", ()): a, ("y", ()): b}, {("y", ()): b} if k % 2 else {}, {("x", ()): b}, {("x", ()): a, ("y", ()): b}, {}]
+        env = configs_info[k % ncfg][0]
+        for pos, st in enumerate(states):
+            cse = mk("sequence", txt, st, x)
+            cse["env"] = env
+            cse["seq"] = [k, pos]
+            inputs.append(cse)
     # regression corpus: the witnesses of the repaired findings (default configuration)
     d20 = mk("regression-D20", "(= (x) (y))", {("x", ()): 1000000.0, ("y", ()): 1000000.0005}, ["cmp", "=", ["fl", "x", []], ["fl", "y", []]])
     d20b = mk("regression-D20", "(>= (x) (y))", {("x", ()): 1000000.0, ("y", ()): 1000000.0005}, ["cmp", ">=", ["fl", "x", []], ["fl", "y", []]])
@@ -374,7 +417,8 @@ def case_lit(inp, res):
     else:
         obs = "Raised"
     return ("{| c_text := %s; c_nums := %s; c_funcs := F; c_state := %s; c_eps := %s; c_digits := %d; c_obs := %s; c_x := %s |}"
-            % (cstr(inp["text"]), nums, state, cfl(res["eps"]), res["digits"], obs, coq_expect(inp["x"])))
+            % (cstr(inp["text"]), nums, state, chex(stated_config(inp.get("env", {}))[0]), stated_config(inp.get("env", {}))[1],
+               obs, coq_expect(inp["x"])))
 
 
 def run(args):
@@ -389,18 +433,35 @@ def run(args):
         configs = [inputs[0].get("env", {})]
     # what the implementation makes of each environment setting
     configs_info = []
+    impl_configs = []
     for env in configs:
         c = run_impl([{"op": "c12.config"}], nproc=1, env_extra=env)[0]
-        configs_info.append((env, fromhex(c["eps"]), c["digits"]))
+        impl_configs.append({"env": env, "EPSILON": c["eps"], "DEFAULT_DIGITS": c["digits"]})
+        eps, digits = stated_config(env)
+        configs_info.append((env, eps, digits))
     if not args.replay:
         inputs, meta = build_inputs(rng, args.tier, configs_info)
     # run the implementation, one batch of worker processes per environment
     results = [None] * len(inputs)
     for env, _, _ in configs_info:
-        idx = [i for i, c in enumerate(inputs) if c["env"] == env]
+        idx = [i for i, c in enumerate(inputs) if c["env"] == env and "seq" not in c]
         jobs = [{"op": "c12.run_case", "text": inputs[i]["text"], "funcs": FUNCS, "state": inputs[i]["state"]} for i in idx]
         for i, r in zip(idx, run_impl(jobs, env_extra=env)):
             results[i] = r
+        # sequences: one tree, several states in a row (each position is judged as its own case)
+        seqs = {}
+        for i, c in enumerate(inputs):
+            if c["env"] == env and "seq" in c:
+                seqs.setdefault(c["seq"][0], []).append(i)
+        sjobs, sidx = [], []
+        for sid, members in seqs.items():
+            members.sort(key=lambda i: inputs[i]["seq"][1])
+            sjobs.append({"op": "c12.run_sequence", "text": inputs[members[0]]["text"], "funcs": FUNCS,
+                          "states": [inputs[i]["state"] for i in members]})
+            sidx.append(members)
+        for members, rs in zip(sidx, run_impl(sjobs, env_extra=env)):
+            for i, r in zip(members, rs):
+                results[i] = r
     cases = []
     for inp, res in zip(inputs, results):
         cases.append({"lit": case_lit(inp, res), "input": {"case": inp, "implementation": res},
@@ -428,7 +489,8 @@ def run(args):
     cov["expectation_kinds"] = xs
     cov["outcomes"] = outcomes
     cov["tolerance_pairs_truth_table"] = dict(sorted(cmp_truth.items()))
-    cov["configurations"] = [{"env": e, "EPSILON": hx(eps), "DEFAULT_DIGITS": d} for e, eps, d in configs_info]
+    cov["configurations"] = [{"env": e, "stated_EPSILON": hx(eps), "stated_DIGITS": d} for e, eps, d in configs_info]
+    cov["implementation_configurations"] = impl_configs
     cov["generator"] = meta
     cov["exhaustive"] = False
     cov["rule"] = ("all expression trees of depth <= 2 over + - * / and the leaves listed in generator.exhaustive (every valuation of the grid "
